@@ -201,9 +201,12 @@ func (p *exeParser) readFragment() (sel Selection, err error) {
 			line := p.line
 			col := p.col
 			if t, err = p.readType(); err == nil {
-				if _, ok := t.(*Ref); ok {
+				switch t.(type) {
+				case *Ref:
 					err = parseError(line, col, "type %s not defined", t.Name())
-				} else {
+				case *List, *NonNull:
+					err = parseError(line, col, "a type condition must be a name, not %s", t.Name())
+				default:
 					sel, err = p.readInline(t)
 				}
 			}
@@ -260,7 +263,14 @@ func (p *exeParser) readFragmentDef() (frag *Fragment, err error) {
 		}
 	}
 	if err == nil {
-		frag.Condition, err = p.readType()
+		line := p.line
+		col := p.col
+		if frag.Condition, err = p.readType(); err == nil {
+			switch frag.Condition.(type) {
+			case *List, *NonNull:
+				err = parseError(line, col, "a type condition must be a name, not %s", frag.Condition.Name())
+			}
+		}
 	}
 	if err == nil {
 		frag.Dirs, err = p.readDirUses()
